@@ -1438,7 +1438,10 @@ class SqlFactory(object):
             yield row
 
     def create_table_statement(self):
-        result = "create table " + self._table + " (\n"
+        table = self._table
+        if self._dialect.is_keyword(table):
+            table = '"' + table + '"'
+        result = "create table " + table + " (\n"
         first_field = True
 
         # get column definitions for all fields
